@@ -89,6 +89,12 @@ Definition rep_loop {A} (body : st -> (st -> option A) -> option A) (lo : nat) (
         end
     end.
 
+Lemma mt_cat a b A s (k : st -> option A) : mt (RCat a b) A s k = mt a A s (fun s' => mt b A s' k).
+Proof. reflexivity. Qed.
+
+Lemma mt_bot A s (k : st -> option A) : mt RBot A s k = match prev s with None => k s | Some _ => None end.
+Proof. reflexivity. Qed.
+
 Lemma mt_atomic r A s (k : st -> option A) :
   mt (RAtomic r) A s k = match mt r st s (fun s' => Some s') with Some s' => k s' | None => None end.
 Proof. reflexivity. Qed.
@@ -377,4 +383,162 @@ Proof.
   cbn [scan re_find_iter_ends]. destruct skip; [|apply IH].
   rewrite <- (breaker_len_is_pattern pv (c :: tl) Ht Hb Hc).
   destruct (breaker_len pv (c :: tl)) as [[|m]|]; rewrite ?IH; reflexivity.
+Qed.
+
+(* ================= patterns anchored at the start: search only succeeds at position 0 ================= *)
+Lemma match_bot_later x c t : re_match_at (RCat RBot x) (Some c) t = None.
+Proof. reflexivity. Qed.
+
+Lemma search_bot_later x : forall t c i, re_search (RCat RBot x) (Some c) i t = None.
+Proof.
+  induction t as [|d tl IH]; intros c i; cbn [re_search]; rewrite match_bot_later; [reflexivity|apply IH].
+Qed.
+
+Lemma find_bot x t : re_find (RCat RBot x) t =
+  match re_match_at (RCat RBot x) None t with Some m => Some (0, m) | None => None end.
+Proof.
+  unfold re_find. destruct t as [|c tl]; cbn [re_search]; destruct (re_match_at (RCat RBot x) None _); try reflexivity.
+  apply search_bot_later.
+Qed.
+
+(* ---- PROHIBITED_BOS ---- *)
+Definition PROHIBITED_EXPECTED : re :=
+  RCat RBot (RRep (RGrp 1 (RCls (cls_union F.CLOSE_PARENTHESIS (cls_union F.COMMA F.PERIODS)))) 1).
+
+Lemma onechar_prohibited : onechar (RGrp 1 (RCls (cls_union F.CLOSE_PARENTHESIS (cls_union F.COMMA F.PERIODS)))) is_prohibited.
+Proof.
+  apply onechar_grp. eapply onechar_ext; [apply onechar_cls|]. intros c. rewrite !in_ranges_union.
+  unfold is_prohibited, is_close, is_comma, is_period. rewrite orb_assoc. reflexivity.
+Qed.
+
+(* prohibited_bos(s): `if let Some(mat) = PROHIBITED_BOS.find(s) { mat.end() } else { 0 }` *)
+Lemma prohibited_bos_is_pattern t :
+  prohibited_bos t = match re_find PROHIBITED_EXPECTED t with Some (_, e) => e | None => 0 end.
+Proof.
+  unfold PROHIBITED_EXPECTED. rewrite find_bot. rewrite re_match_at_eq. rewrite mt_cat, mt_bot. cbn [prev].
+  rewrite (mt_rep_one_end _ _ _ _ onechar_prohibited). cbn [rest]. unfold prohibited_bos.
+  destruct (1 <=? span is_prohibited t) eqn:E.
+  - cbn [pos_of]. destruct (advn_rest (span is_prohibited t) (mkSt None 0 t) (span_le _ _)) as [_ B]. rewrite B. reflexivity.
+  - cbn [pos_of]. lia.
+Qed.
+
+(* ---- ITEMIZE_HEADER ---- *)
+Definition ITEMIZE_EXPECTED : re :=
+  RCat RBot (RCat (RGrp 1 (RCls F.ALPHABET_OR_NUMBER)) (RCat (RGrp 2 (RCls F.DOT)) REot)).
+
+Lemma itemize_header_is_pattern s : itemize_header s = re_is_match ITEMIZE_EXPECTED s.
+Proof.
+  unfold re_is_match, ITEMIZE_EXPECTED. rewrite find_bot. rewrite re_match_at_eq. cbn [mt prev]. unfold one, itemize_header. cbn [rest].
+  destruct s as [|a [|d [|x tl]]]; try reflexivity.
+  - change (in_ranges F.ALPHABET_OR_NUMBER a) with (is_an a). destruct (is_an a); reflexivity.
+  - change (in_ranges F.ALPHABET_OR_NUMBER a) with (is_an a). cbn [rest step]. change (in_ranges F.DOT d) with (is_dot d).
+    destruct (is_an a), (is_dot d); reflexivity.
+  - change (in_ranges F.ALPHABET_OR_NUMBER a) with (is_an a). cbn [rest step]. change (in_ranges F.DOT d) with (is_dot d).
+    destruct (is_an a), (is_dot d); reflexivity.
+Qed.
+
+(* ---- EOS_ITEMIZE_HEADER ---- *)
+Definition EOS_ITEMIZE_EXPECTED : re :=
+  RCat (RGrp 1 (RCls F.ALPHABET_OR_NUMBER)) (RCat (RGrp 2 (RCls F.DOT)) REot).
+
+Lemma eos_itemize_at pv t : re_match_at EOS_ITEMIZE_EXPECTED pv t =
+  match t with [a; d] => if is_an a && is_dot d then Some 2 else None | _ => None end.
+Proof.
+  rewrite re_match_at_eq. unfold EOS_ITEMIZE_EXPECTED. cbn [mt]. unfold one. cbn [rest].
+  destruct t as [|a [|d [|x tl]]]; try reflexivity;
+    change (in_ranges F.ALPHABET_OR_NUMBER a) with (is_an a); destruct (is_an a); try reflexivity;
+    cbn [rest step]; change (in_ranges F.DOT d) with (is_dot d); destruct (is_dot d); reflexivity.
+Qed.
+
+Lemma ends_an_dot_is_search : forall t pv i,
+  ends_an_dot t = match re_search EOS_ITEMIZE_EXPECTED pv i t with Some _ => true | None => false end.
+Proof.
+  induction t as [|a tl IH]; intros pv i.
+  - cbn [re_search ends_an_dot]. rewrite eos_itemize_at. reflexivity.
+  - cbn [re_search]. rewrite eos_itemize_at. destruct tl as [|d tl'].
+    + cbn [ends_an_dot re_search]. rewrite eos_itemize_at. reflexivity.
+    + destruct tl' as [|x tl''].
+      * cbn [ends_an_dot]. destruct (is_an a && is_dot d); [reflexivity|].
+        cbn [re_search]. rewrite !eos_itemize_at. reflexivity.
+      * rewrite <- (IH (Some a) (S i)). reflexivity.
+Qed.
+
+Lemma ends_an_dot_is_pattern t : ends_an_dot t = re_is_match EOS_ITEMIZE_EXPECTED t.
+Proof. unfold re_is_match, re_find. apply ends_an_dot_is_search. Qed.
+
+(* ---- PARENTHESIS ---- *)
+Definition PARENTHESIS_EXPECTED : re := RAlt (RGrp 1 (RCls F.OPEN_PARENTHESIS)) (RGrp 2 (RCls F.CLOSE_PARENTHESIS)).
+
+Lemma paren_at pv c tl :
+  re_match_at (RAlt (RGrp 1 (RCls F.OPEN_PARENTHESIS)) (RGrp 2 (RCls F.CLOSE_PARENTHESIS))) pv (c :: tl)
+  = if is_open c || is_close c then Some 1 else None.
+Proof.
+  rewrite re_match_at_eq. cbn [mt]. unfold one. cbn [rest].
+  change (in_ranges F.OPEN_PARENTHESIS c) with (is_open c). change (in_ranges F.CLOSE_PARENTHESIS c) with (is_close c).
+  destruct (is_open c), (is_close c); reflexivity.
+Qed.
+
+Lemma paren_open_at pv c tl :
+  re_match_at (RGrp 1 (RCls F.OPEN_PARENTHESIS)) pv (c :: tl) = if is_open c then Some 1 else None.
+Proof.
+  rewrite re_match_at_eq. cbn [mt]. unfold one. cbn [rest].
+  change (in_ranges F.OPEN_PARENTHESIS c) with (is_open c). destruct (is_open c); reflexivity.
+Qed.
+
+Lemma plevel_is_alt_level : forall t lv pv,
+  plevel lv t = re_alt_level (RGrp 1 (RCls F.OPEN_PARENTHESIS)) (RGrp 2 (RCls F.CLOSE_PARENTHESIS)) lv 0 pv t.
+Proof.
+  induction t as [|c tl IH]; intros lv pv; [reflexivity|].
+  cbn [plevel re_alt_level]. rewrite paren_at, paren_open_at.
+  destruct (is_open c) eqn:Eo; cbn [orb]; [apply IH|]. destruct (is_close c); apply IH.
+Qed.
+
+Lemma plevel_is_pattern t : Some (plevel 0 t) = re_paren_level PARENTHESIS_EXPECTED t.
+Proof. unfold PARENTHESIS_EXPECTED, re_paren_level. f_equal. apply plevel_is_alt_level. Qed.
+
+(* ---- QUOTE_MARKER ---- *)
+(* l1|l2|...|[cls] of single characters *)
+Fixpoint alt_chars_then (cs : list N) (last : re) : re :=
+  match cs with
+  | [] => last
+  | c :: tl => RAlt (RLit [c]) (alt_chars_then tl last)
+  end.
+
+Definition alt_of_words (L : list text) : re := match L with [] => RCls ([], []) | w :: ws => alt_of_lits w ws end.
+
+Definition QUOTE_EXPECTED : re :=
+  RCat (RGrp 1 (alt_chars_then F.QUOTE_FIRST (RCls F.CLOSE_PARENTHESIS))) (RGrp 2 (alt_of_words F.QUOTE_SECOND)).
+
+Lemma onechar_alt_chars cs last q : onechar last q -> onechar (alt_chars_then cs last) (fun c => in_list cs c || q c).
+Proof.
+  intros Hq. induction cs as [|a tl IH]; cbn [alt_chars_then].
+  - eapply onechar_ext; [exact Hq|]. reflexivity.
+  - eapply onechar_ext; [apply onechar_alt; [apply onechar_lit1|exact IH]|].
+    intros c. cbn beta. unfold in_list. cbn [existsb]. rewrite (N.eqb_sym a c). rewrite orb_assoc. reflexivity.
+Qed.
+
+(* an alternation of literals before a rest that cannot fail: some literal is a prefix *)
+Lemma alt_of_lits_some : forall ws w s,
+  match mt (alt_of_lits w ws) st s (fun s' => Some s') with Some _ => true | None => false end
+  = existsb (fun v => starts_with v (rest s)) (w :: ws).
+Proof.
+  induction ws as [|w' tl IH]; intros w s.
+  - cbn [alt_of_lits mt existsb]. rewrite lit_spec. destruct (starts_with w (rest s)); reflexivity.
+  - cbn [alt_of_lits mt]. rewrite lit_spec. change (existsb (fun v => starts_with v (rest s)) (w :: w' :: tl))
+      with (starts_with w (rest s) || existsb (fun v => starts_with v (rest s)) (w' :: tl)).
+    destruct (starts_with w (rest s)); [reflexivity|]. cbn [orb]. apply IH.
+Qed.
+
+(* QUOTE_MARKER.find(&s[eos - last_char_len..]) with mat.start() == 0, the slice being l :: rest *)
+Lemma quote_at_is_pattern l rest :
+  quote_at l rest = match re_match_at QUOTE_EXPECTED None (l :: rest) with Some _ => true | None => false end.
+Proof.
+  rewrite re_match_at_eq. unfold QUOTE_EXPECTED. cbn [mt].
+  rewrite (onechar_alt_chars F.QUOTE_FIRST (RCls F.CLOSE_PARENTHESIS) _ (onechar_cls _)).
+  unfold one, quote_at. cbn [SentenceRegex.rest]. change (in_ranges F.CLOSE_PARENTHESIS l) with (is_close l).
+  destruct (in_list F.QUOTE_FIRST l || is_close l); [|reflexivity]. cbn [andb].
+  unfold alt_of_words. destruct F.QUOTE_SECOND as [|w ws].
+  - cbn [mt existsb]. unfold one. cbn [SentenceRegex.rest step]. destruct rest; reflexivity.
+  - pose proof (alt_of_lits_some ws w (step (mkSt None 0 (l :: rest)) l rest)) as H. cbn [SentenceRegex.rest step] in H.
+    rewrite <- H. destruct (mt (alt_of_lits w ws) st _ _); reflexivity.
 Qed.
